@@ -37,6 +37,19 @@ type PathQuery struct {
 	// variables at the start of the search.
 	TrackNils []types.Object
 	StartNil  map[types.Object]int
+	// ExitState: with nil tracking, decides whether a return reached in the given state is an
+	// acceptable exit (takes the place of exitOK).
+	ExitState func(ret *ast.ReturnStmt, st int) bool
+}
+
+// nilStateOf: the tracked state of variable o in path state st (nilUnknown when not tracked).
+func (q *PathQuery) nilStateOf(o types.Object, st int) int {
+	for i, t := range q.tracked() {
+		if t == o {
+			return nilGet(st, i)
+		}
+	}
+	return nilUnknown
 }
 
 func (q *PathQuery) tracked() []types.Object {
@@ -344,7 +357,11 @@ func (q *PathQuery) Escapes(from, to, via nodePred, exitOK func(ret *ast.ReturnS
 			}
 			nl = q.nilAfter(n, nl)
 			if ret, ok := n.(*ast.ReturnStmt); ok && to == nil {
-				if exitOK == nil || !exitOK(ret) {
+				if q.ExitState != nil {
+					if !q.ExitState(ret, nl) {
+						return link.list()
+					}
+				} else if exitOK == nil || !exitOK(ret) {
 					return link.list()
 				}
 			}
